@@ -218,6 +218,13 @@ impl Core {
                 | MessageType::Response(ResponseSpecific::FindNode(_))
                 | MessageType::Request(_) => {}
             };
+        } else if matches!(
+            message.message_type,
+            MessageType::Response(ResponseSpecific::Ping(_))
+        ) {
+            // The socket only hands us responses to our own requests, so a pong that belongs to
+            // no query answers one of our routing table pings: refresh that node.
+            should_add_node = true;
         };
 
         if should_add_node {
